@@ -20,6 +20,8 @@ pub(crate) struct FrequencySketch {
     table_mask: u32,
     table: Box<[u64]>,
     size: u32,
+    #[cfg(mini_moka_verif)]
+    verif_resets: u32,
 }
 
 // A mixture of seeds from FNV-1a, CityHash, and Murmur3. (Taken from Caffeine)
@@ -174,6 +176,10 @@ impl FrequencySketch {
             *entry = (*entry >> 1) & RESET_MASK;
         }
         self.size = (self.size >> 1) - (count >> 2);
+        #[cfg(mini_moka_verif)]
+        {
+            self.verif_resets += 1;
+        }
     }
 
     /// Returns the table index for the counter at the specified depth.
@@ -182,6 +188,21 @@ impl FrequencySketch {
         let mut hash = hash.wrapping_add(SEED[i]).wrapping_mul(SEED[i]);
         hash = hash.wrapping_add(hash >> 32);
         (hash & (self.table_mask as u64)) as usize
+    }
+}
+
+// Verification hooks (read-only).
+#[cfg(mini_moka_verif)]
+impl FrequencySketch {
+    /// (size, sample_size, table, number of aging steps so far)
+    pub(crate) fn verif_parts(&self) -> (u32, u32, &[u64], u32) {
+        (self.size, self.sample_size, &self.table, self.verif_resets)
+    }
+
+    /// Table index and nibble position of the counter used at `depth`.
+    pub(crate) fn verif_counter_of(&self, hash: u64, depth: u8) -> (usize, u8) {
+        let start = ((hash & 3) << 2) as u8;
+        (self.index_of(hash, depth), start + depth)
     }
 }
 
